@@ -48,6 +48,10 @@ func c03Stream(r *Run) {
 	comp := r.DrawCompression(v)
 	n := 1 + T.Draw("nframes", 40)
 	readerMode := T.Draw("reader", 3) // 0 DecodeFrame, 1 DecodeRawFrame (by declared length), 2 DecodeHeader+DecodeBody
+	// cut: after the last frame the writer delivers only a prefix of one more frame and closes the stream;
+	// the decoder has to end with an error there, not with a frame (nor with a raw frame whose body is
+	// shorter than its header declares)
+	cut := T.Bool("cut", 0.2)
 	big := T.Bool("big", 0.1)
 	// what the decoder reads from: 0 the connection, 1 a *bytes.Buffer holding the whole stream, 2 a
 	// *bytes.Reader holding it, 3 a bufio.Reader over the connection, 4 one *bytes.Buffer that is written
@@ -82,6 +86,7 @@ func c03Stream(r *Run) {
 	rcodec := frameCodecFor(comp)
 	sent := make([]*c03Sent, 0, n)
 	var got []*frame.Frame
+	shortRaw := ""
 	var consumedAt []int64 // reader position after each decoded frame
 	var readErr error
 	writerDone, readerDone := false, false
@@ -93,6 +98,9 @@ func c03Stream(r *Run) {
 		case 1:
 			var raw *frame.RawFrame
 			if raw, err = rcodec.DecodeRawFrame(src); err == nil {
+				if len(raw.Body) != int(raw.Header.BodyLength) {
+					shortRaw = fmt.Sprintf("DecodeRawFrame returned a raw frame whose header declares %d body bytes with a body of %d bytes", raw.Header.BodyLength, len(raw.Body))
+				}
 				f, err = rcodec.ConvertFromRawFrame(raw)
 			}
 		default:
@@ -121,6 +129,15 @@ func c03Stream(r *Run) {
 	}
 	var turns bytes.Buffer
 	var turnsWritten int
+	var cutBytes []byte
+	if cut && source != 4 {
+		cf := GenFrame(T, GenOpts{Version: v, Requests: true, Responses: true, MaxBytes: 400, HeaderFlags: true}, int16(T.Draw("stream", 120)))
+		var cb bytes.Buffer
+		if err := frameCodecFor(comp).EncodeFrame(cf, &cb); err == nil && cb.Len() > 1 {
+			cutBytes = cb.Bytes()[:1+T.Draw("cut.at", cb.Len()-1)]
+		}
+	}
+	r.Config["cut"] = fmt.Sprint(len(cutBytes) > 0)
 	r.Go("writer", func() {
 		defer func() { writerDone = true }()
 		for _, f := range frames {
@@ -159,6 +176,10 @@ func c03Stream(r *Run) {
 		}
 		if source == 4 && readErr == nil {
 			readErr = io.EOF
+		}
+		if len(cutBytes) > 0 && (len(sent) == 0 || sent[len(sent)-1].encErr == nil) {
+			_, _ = a.Write(cutBytes)
+			r.Faults["stream_cut_inside_a_frame"]++
 		}
 		_ = a.Close()
 	})
@@ -204,6 +225,15 @@ func c03Stream(r *Run) {
 		return
 	}
 	stream := a.Tap().Sent
+	if n := len(cutBytes); n > 0 && len(stream) >= n && bytes.Equal(stream[len(stream)-n:], cutBytes) {
+		stream = stream[:len(stream)-n] // the framing oracles below look at the complete frames
+		if readErr == nil || readErr == io.EOF && len(cutBytes) > 0 && len(got) > len(sent) {
+			r.Violate(P, "sequence", "truncated-frame-decoded", "the stream ended %d bytes into a frame and the reader (%s) returned a frame for it", len(cutBytes), r.Config["reader"])
+		}
+	}
+	if shortRaw != "" {
+		r.Violate(P, "consumption", "raw-body-shorter-than-declared", "%s (stream cut: %v)", shortRaw, len(cutBytes) > 0)
+	}
 	hl := v.FrameHeaderLengthInBytes()
 	okSent := sent
 	for i, s := range sent {
